@@ -6,4 +6,5 @@ pub mod drive;
 pub mod explore;
 pub mod fam_atomic;
 pub mod fam_lock;
+pub mod fam_sync;
 pub mod prog;
